@@ -2,14 +2,16 @@
 # usage: tools/mutcheck.sh <patch.diff> <PROP> [<PROP>...]   -- applies the patch to /repo, runs quick checks, reverts
 set -u
 patch="$1"; shift
-cd /repo || exit 2
+REPO=${VERIF_REPO:-/repo}
+VERIF=$(cd "$(dirname "$0")/.." && pwd)
+cd $REPO || exit 2
 if ! git diff --quiet; then echo "/repo has local changes; refusing"; exit 2; fi
 # prefer a rebased copy of the patch when the seeded one predates a fix: commit
 [ -f "${patch%.diff}.rebased.diff" ] && patch="${patch%.diff}.rebased.diff"
 if ! git apply --check "$patch" 2>/dev/null; then echo "PATCH-DOES-NOT-APPLY $patch"; exit 3; fi
 git apply "$patch"
-trap 'cd /repo && git reset -q --hard HEAD' EXIT
-cd /verif
+trap 'cd $REPO && git reset -q --hard HEAD' EXIT
+cd $VERIF
 for p in "$@"; do
   out=$(./check "$p" --tier ${TIER:-quick} 2>&1); rc=$?
   echo "== $p exit=$rc"
